@@ -167,12 +167,15 @@ def _split_instruction_into_tokens(line: str) -> List[str]:
                 i += 1
                 continue
             i += 1
+            escaped = False
             while i < len(line):
-                if line[i] == '"' and line[i - 1] != "\\":
+                if line[i] == '"' and not escaped:
                     fields.append(line[start : i + 1])
                     i += 1
                     start = i
                     break
+                # a backslash escapes the next character unless it is escaped itself.
+                escaped = line[i] == "\\" and not escaped
                 i += 1
             else:
                 raise ParseError(f"missing closing qoute {line}")
